@@ -58,10 +58,11 @@ def stepRth (p : Plan) (err : Option String) (q : String × String) : Option Str
 def opRth (args impl : List String) : Verdict :=
   match args with
   | hx :: qs =>
-    match hexToBytes hx with
+    -- "-" : `sb_rth_plan_init_empty` (the harness calls it on an object filled with 0xA5)
+    match (if hx = "-" then some [] else hexToBytes hx) with
     | none => .badCase "rth hex"
     | some b =>
-      match Rth.init b with
+      match (if hx = "-" then (.ok { buf := [], scale := 1, numPoints := 0, headerLength := 0 } : R Rth.Plan) else Rth.init b) with
       | .error e => expectTokens [toString e.code] impl [s!"rth:init{e.code}"]
       | .ok p =>
         match impl with
